@@ -126,7 +126,7 @@ def http_date(model_t: int, fmt: str = "rfc1123") -> str:
 def blank_event(ev: str = "init") -> dict:
     return {"ev": ev, "host": [], "path": dict(ROOT), "scheme": "http", "name": "", "val": 0,
             "dom": _da(False, []), "pth": {"present": False, "segs": [], "trail": True},
-            "secure": False, "maxage": -1, "expires": 0, "d": [], "n": 0}
+            "secure": False, "maxage": -1, "expires": 0, "d": [], "n": 0, "re": 0}
 
 
 def receive_event(host: List[str], path: dict, scheme: str, name: str, val: int, dom: dict,
@@ -170,6 +170,44 @@ def render_set_cookie(e: dict, rng: Any = None) -> str:
     return sep.join([f"{e['name']}={e['val']}"] + attrs)
 
 
+# ---------------------------------------------------------------- re-sent cookies
+def default_path(p: dict) -> dict:
+    """Default path of a request path (only to *choose* an equivalent explicit Path attribute)."""
+    if not p["segs"]:
+        return dict(ROOT)
+    if p["trail"]:
+        return P(p["segs"], False)
+    return P(p["segs"][:-1], False) if len(p["segs"]) > 1 else dict(ROOT)
+
+
+def resend_event(rng: Any, e0: dict, ordinal: int) -> dict:
+    """The origin issues the cookie of an earlier Receive again: same name, same VALUE (re = ordinal
+    of that Receive), same (domain, path) spelled the same or equivalently, other attributes."""
+    e = {k: (dict(v) if isinstance(v, dict) else list(v) if isinstance(v, list) else v) for k, v in e0.items()}
+    e["re"] = ordinal
+    e["scheme"] = rng.choice(SCHEMES)
+    r = rng.random()
+    if r < 0.7:
+        e["secure"] = not e0["secure"]
+    if r > 0.5 or rng.random() < 0.3:
+        e["maxage"], e["expires"] = rng.choice([(-1, 0), (2, 0), (-1, EXP_FUTURE), (2, EXP_PAST)])
+    d = e["dom"]
+    usable = d["present"] and not d["trail"] and d["labels"]
+    s = rng.random()
+    if usable and s < 0.25:
+        d["lead"] = not d["lead"]                         # ".example.com" == "example.com"
+    elif usable and s < 0.35 and d["labels"] != IP:
+        d["up"] = not d["up"]                             # case-insensitive
+    elif usable and s < 0.55 and d["labels"] == e["host"]:
+        e["dom"] = _da(False, [])                         # Domain=<host>  ->  host-only, same identity
+    elif not usable and s < 0.3:
+        e["dom"] = _da(True, e["host"])                   # host-only  ->  Domain=<host>
+    if not e["pth"]["present"] and rng.random() < 0.4:
+        dp = default_path(e["path"])                      # explicit Path equal to the default path
+        e["pth"] = {"present": True, "segs": list(dp["segs"]), "trail": dp["trail"]}
+    return e
+
+
 # ---------------------------------------------------------------- random histories
 def random_history(rng: Any, nmin: int = 4, nmax: int = 12, queries: bool = False) -> Dict[str, Any]:
     """A seeded history of stimuli, biased towards collisions (same name, related hosts,
@@ -192,7 +230,11 @@ def random_history(rng: Any, nmin: int = 4, nmax: int = 12, queries: bool = Fals
     val = 0
     for _ in range(n):
         r = rng.random()
-        if r < 0.62 or not stim:
+        recv = [e for e in stim if e["ev"] == "Receive"]
+        if recv and r < 0.10:
+            k = rng.randrange(len(recv)) if rng.random() < 0.4 else len(recv) - 1
+            stim.append(resend_event(rng, recv[k], k + 1))
+        elif r < 0.62 or not stim:
             val += 1
             h = rng.choice(hosts)
             kind = rng.choice(["absent"] * 14 + ["same"] * 8 + ["parent"] * 6 + ["dotparent", "child", "sibling",
